@@ -24,7 +24,10 @@ def check_links(roots, reg: Registry | None = None) -> list[tuple[str, str]]:
     zombies = getattr(reg, "zombies", {})
     if zombies:
         for z in zombies.values():
-            out.append(("object_refers_to_half_constructed_graph", f"{tok(z)} (its constructor raised) is still referenced"))
+            if isinstance(z, _core.Node):
+                out.append(("value_names_a_half_constructed_node_as_its_producer", f"a Node({z.op_type!r}) whose constructor raised is still the producer of a value"))
+            else:
+                out.append(("object_refers_to_half_constructed_graph", f"{tok(z)} (its constructor raised) is still referenced"))
         graphs = [g for g in graphs if id(g) not in zombies]
 
     # 1. uses <=> inputs
